@@ -1,28 +1,30 @@
 from propkit import job
 
-_FILES = [
-    "harness/extras/realm/c20_model_test.go",
-    "harness/extras/realm/c20_codec_test.go",
-    "harness/extras/realm/c20_seq_test.go",
-    "harness/extras/realm/c20_conc_test.go",
-    "harness/extras/realm/c20_server_test.go",
-]
+_D = "harness/extras/realm/"
+_MODEL = _D + "c20_model_test.go"          # reference codec, STUN classifier, generators (exported API only)
+
+
+def _job(name, files, run, expect):
+    return job(name, "extras", "./realm/", "realm", [_MODEL] + [_D + f for f in files], run, expect, race=True,
+               timeout_quick=600, timeout_thorough=3600)
+
 
 PROP = {
     "level": "exploration",
     "technique": "runtime monitoring with a reference punch/STUN decoder; race detector; offline linearizability check (porcupine)",
     "jobs": [
-        # one go test child per part (same test binary, built once); run side by side
-        job("codec", "extras", "./realm/", "realm", _FILES, "^TestVerifC20Codec$", ["punch-codec"], race=True,
-            timeout_quick=600, timeout_thorough=3600),
-        job("seq", "extras", "./realm/", "realm", _FILES, "^TestVerifC20DemuxSeq$", ["demux-seq"], race=True,
-            timeout_quick=600, timeout_thorough=3600),
-        job("conc", "extras", "./realm/", "realm", _FILES, "^TestVerifC20DemuxConc$", ["demux-conc"], race=True,
-            timeout_quick=600, timeout_thorough=3600),
-        job("server", "extras", "./realm/", "realm", _FILES, "^TestVerifC20ServerPunch$", ["server-punch"], race=True,
-            timeout_quick=600, timeout_thorough=3600),
+        # One go test child per part, run side by side. Every job compiles ONLY the files it needs, and all of
+        # them except "census" use the exported API only (AddPunchAttempt / RemovePunchAttempt / ReadFrom /
+        # Events / STUNEvents / Respond, exported types): a change of the registry's representation can make
+        # the census job unbuildable (inconclusive) but leaves every behavioural oracle running.
+        _job("codec", ["c20_codec_test.go"], "^TestVerifC20Codec$", ["punch-codec"]),
+        _job("seq", ["c20_seq_test.go"], "^TestVerifC20DemuxSeq$", ["demux-seq"]),
+        _job("conc", ["c20_conc_test.go"], "^TestVerifC20Demux(Conc|Hammer)$", ["demux-conc", "demux-hammer"]),
+        _job("server", ["c20_server_test.go"], "^TestVerifC20ServerPunch$", ["server-punch"]),
+        _job("udp", ["c20_udp_test.go"], "^TestVerifC20UDPSocket$", ["udp-socket"]),
+        _job("census", ["c20_server_test.go", "c20_whitebox_test.go"], "^TestVerifC20Census$", ["registry-census"]),
     ],
-    "parallel": 4,
+    "parallel": 6,
     "post": [
         {"name": "c20-lin", "glob": "c20-history*.jsonl", "cmd": ["{verif}/build/bin/c20lin"], "timeout": 3600},
     ],
@@ -44,8 +46,21 @@ PROP = {
              "attempts, 2..3 writers, 1..3 readers, 1500 (thorough 3000) packets from unique sources; call/return "
              "stamps from one atomic counter; per-attempt histories checked in-harness (single-owner attempts, exact) "
              "and offline with porcupine as a boolean register (all attempts incl. the one toggled by every writer). "
-             "server-punch: ServerPuncher.Respond in a synctest bubble (hello / ack / timeout / cancel / two attempts), "
-             "after it returns the attempt's packets reach the reader again. "
+             "demux-hammer: worlds with 6..16 goroutines that each register and at once remove 120 (thorough 200) ids "
+             "used exactly once, on top of 16..128 long-lived attempts; a punch packet of id Y handed over after "
+             "RemovePunchAttempt(Y) returned (right away and again in a final sweep) must reach the reader; "
+             "histories also go to porcupine. "
+             "server-punch: ServerPuncher.Respond in a synctest bubble: two concurrent attempts (hello / ack / "
+             "timeout / cancel), a duplicate-id Respond with other metadata while the first runs (refused, changes "
+             "nothing), one Respond of each refusable kind (no / invalid / family-mismatched peers, forced family, "
+             "negative timeout, negative interval, malformed metadata, empty id, cancelled context) followed by "
+             "packets of its metadata (must pass) and by a valid Respond with the same id (must be served); after "
+             "every return the attempt's packets reach the reader again. registry-census: the same scenarios with the "
+             "white-box probe (registry read under the conn's lock; the only file touching unexported state). "
+             "udp-socket: PunchPacketConn over a real loopback *net.UDPConn (udp4 with 4 senders on 127.0.0.1, and "
+             "dual-stack with 3 senders on 127.0.0.1 + 1 on ::1), 40..100 lock-step steps (send one datagram, wait "
+             "until it is returned or its event arrives), senders switched between datagrams: returned bytes "
+             "identical and source == the socket that sent it. "
              "Non-trivial: codec case = packet accepted under own metadata or near-miss rejected; seq case = script in "
              "which packets were both diverted and passed (distinct by outcome vector); conc world / lin partition = "
              "both outcomes occurred and at least one read overlapped a write."),
@@ -60,5 +75,9 @@ PROP = {
         "a punch packet from a source that is not a UDP address with IP and non-zero port may be passed through",
         "in demux-conc/porcupine each attempt id keeps one metadata for its lifetime, so membership is a boolean register",
         "porcupine partitions undecided within 2 minutes are inconclusive",
+        "udp-socket uses kernel loopback sockets in strict lock-step (one datagram in flight); its only real-time "
+        "element is a 20 s watchdog per datagram whose firing is inconclusive; skipped layouts (no IPv6 loopback) are counted",
+        "demux-hammer: every id is registered once and removed once by one goroutine and never again, so any "
+        "diversion after the removal returned is a violation regardless of interleaving",
     ],
 }
